@@ -98,6 +98,12 @@ def run(ctx):
                 if it.get("output") == "bool" and any(x.endswith("serde_json::Value") for x in it.get("inputs", [])):
                     ctx.fail("K1.second-notion", "%s|%s" % (op, c["path"]), "the operator %r decides with %s, a different value→bool function than the shared truthiness table" % (op, c["path"]), where=s.where(), fn=s.body.key)
             for s in u.calls(lambda c: re.match(r"^serde_json::Value::(as_bool|is_boolean|is_null|is_number|is_string|is_array|is_object|as_f64|as_i64|as_u64)$", c["path"]) is not None):
+                if re.search(r"::is_(null|boolean|number|string|array|object)$", callee_path(s.term)) and s.term["args"]:
+                    # a kind test of an operand *as written* (rule text, nothing evaluated or looked up) is the question
+                    # `match operand { Value::Object(_) => … }` asks: plumbing that selects what to evaluate, no verdict
+                    tg0 = pv.op_tags(s.body, s.term["args"][0])
+                    if tg0 and all(P.RULEISH(t_) for t_ in tg0):
+                        continue
                 ctx.fail("K1.second-notion", "%s|%s" % (op, callee_path(s.term)), "the operator %r inspects a value with %s instead of the shared truthiness table" % (op, callee_path(s.term)), where=s.where(), fn=s.body.key)
             # what the position has interpreted are its operands as written: it does not build a JSON value at run time and
             # hand that to the parser as if it were rule text (e.g. negating a predicate by wrapping it in {"!": …} instead of
@@ -212,26 +218,7 @@ def run(ctx):
         table(ctx, facts, roles, truthy, cfg)
 
 
-def _in_context(u, b, x, site, depth=0):
-    """[(expression, site)] — x (x-traced in body b) with the parameters of a helper function of the unit replaced by the
-    arguments of each of its call sites in the unit (context-sensitive, bounded depth)."""
-    owner = b
-    while owner.kind == "closure" and owner.creator():
-        owner = owner.creator()[0]
-    if depth < 3 and owner.key != u.root.key and owner.kind == "fn" and expr_mentions(x, lambda y: y[0] == "arg"):
-        callers = [s2 for s2 in u.calls(lambda c, _k=owner.key: c.get("key") == _k)]
-        if callers:
-            out = []
-            for s2 in callers:
-                def sub(e_, _s2=s2):
-                    if not isinstance(e_, tuple):
-                        return e_
-                    if e_[0] == "arg" and isinstance(e_[1], int) and 0 <= e_[1] - 1 < len(_s2.term["args"]):
-                        return _s2.body.xtrace(_s2.term["args"][e_[1] - 1])
-                    return tuple([sub(y) for y in z] if isinstance(z, list) else sub(z) for z in e_)
-                out.extend(_in_context(u, s2.body, sub(x), s2, depth + 1))
-            return out
-    return [(x, site)]
+from .opfacts import in_context as _in_context    # (moved: shared with C16)
 
 
 def mentions_local(o, l):
